@@ -58,3 +58,8 @@ claim("C13", "edge-dominance queries over go/cfg of verifyDANE and daneDelivery.
       "Decides: every accepting return needs the success edge of an EE-record verification (record from the usage-3 list against PeerCertificates[0]) or of the X.509 chain verification of PeerCertificates[0]; roots are only CA certificates matching a usage-2 record; options carry the server name and an initially empty root pool; usage/selector/matching-type filtering; no certificate access without a completed handshake; records without TLS and usable-records-without-match return an error; only-unusable is neutral; CheckConn grants the authenticated level only on (true,nil), propagates errors and defers on lookup failure.",
       "trusts go/types, go/cfg; A2 for (dns.TLSA).Verify and (*x509.Certificate).Verify", "DESIGN.md §3 C13")
 PENDING.pop("C13", None)
+
+claim("C19", "lockset queries (go/cfg) for the key table and bucket channels, ownership queries for received connections with ok-flag refinement, hand-out dominance with the lifetime comparison evaluated in a fresh/stale model world (go/constant), critical-section rules for unlinking and (re)inserting slots",
+      "Decides the discipline that the pool property rests on: all table accesses and bucket sends/closes under the mutex; each received connection handed out xor closed on every path, drains close everything; hand-out only after Usable() and a lifetime test of the right direction; closed buckets unlinked in the same critical section, slots never written back across a released mutex; shutdown marker set by Close and tested by Return under the lock; single user. Interleavings and liveness are not explored.",
+      "trusts go/types, go/cfg; model world for time arithmetic (stamps=1000, limits=100)", "DESIGN.md §3 C19")
+PENDING.pop("C19", None)
